@@ -312,7 +312,16 @@ local function _sandbox_pcall(f, ...)
 end
 
 local function _sandbox_xpcall(f, handler)
-    return _reraise_timeout(_orig_xpcall(f, handler))
+    -- The timeout error is raised from the count hook, and Lua runs the
+    -- message handler for it while hooks are still disabled: module code must
+    -- not run there (a handler that loops could never be aborted).
+    local function guarded_handler(...)
+        if _lua_timed_out then
+            return ...
+        end
+        return handler(...)
+    end
+    return _reraise_timeout(_orig_xpcall(f, guarded_handler))
 end
 
 -- getmetatable for the sandbox.  All strings of the Lua state share ONE
